@@ -211,11 +211,20 @@ pub struct FaultClock {
     pub polls: u64,
     pub fired: bool,
     pub exhausted: bool,
+    /// the poll count at which the step budget last started afresh
+    budget_from: u64,
+    /// set by the caller (who cannot reach the clock while an iterator borrows it) to make the
+    /// step budget start afresh: progress was made
+    pub progress: std::rc::Rc<std::cell::Cell<bool>>,
+    /// a cap on the total number of polls of one operation, whatever progress it makes; reaching
+    /// it is never a liveness verdict, the run is inconclusive
+    pub total_cap: u64,
+    pub capped: bool,
 }
 
 impl FaultClock {
     pub fn new(fire_at: Option<u64>, budget: u64) -> FaultClock {
-        FaultClock { fire_at, budget, polls: 0, fired: false, exhausted: false }
+        FaultClock { fire_at, budget, polls: 0, fired: false, exhausted: false, budget_from: 0, progress: Default::default(), total_cap: u64::MAX, capped: false }
     }
     pub fn never(budget: u64) -> FaultClock {
         FaultClock::new(None, budget)
@@ -232,7 +241,14 @@ impl TerminationCondition for FaultClock {
                 return true;
             }
         }
-        if k >= self.budget {
+        if self.progress.replace(false) {
+            self.budget_from = k;
+        }
+        if k >= self.total_cap {
+            self.capped = true;
+            return true;
+        }
+        if k - self.budget_from >= self.budget {
             self.exhausted = true;
             return true;
         }
